@@ -37,6 +37,8 @@ contracts = {
                "forall(o, Ref, implies(o != self, o.limits_used == old(o.limits_used)))"]}),
  "Job.get_limits": dict(where=f"{SCHED}:Job.get_limits", params={"self": REF}, returns=LIM,
     ensures=["result == limits_of(self)", "forall(k, Str, implies(k in result, result[k] >= 0))"]),
+ # the body of get_limits against the documented list / dict forms of the `limits` option (separate module: own abstraction)
+
  "Scheduler._check_jobs_pending_limits": dict(where=f"{SCHED}:Scheduler._check_jobs_pending_limits", params={"self": REF}),
  "Scheduler._get_cache": dict(where=f"{SCHED}:Scheduler._get_cache", params={"self": REF, "job": REF}, returns=[OBJ, BOOL, OBJ]),
  "Scheduler.reject_job": dict(where=f"{SCHED}:Scheduler.reject_job",
@@ -78,8 +80,36 @@ MODULE = Module(
     stable={"task": OBJ},
     contracts=contracts,
 )
-ASSUMED = ["Job.get_limits", "Scheduler._get_cache", "Scheduler._check_jobs_pending_limits"]
-VERIFY = [k for k in contracts if k not in ASSUMED]
+ASSUMED = ["Job.get_limits (as limits_of(job); its body is verified separately against the list/dict forms)", "Scheduler._get_cache", "Scheduler._check_jobs_pending_limits"]
+VERIFY = [k for k in contracts if k not in ("Job.get_limits", "Scheduler._get_cache", "Scheduler._check_jobs_pending_limits")]
+
+
+def opt_as_map(eng, x):
+    if x.sort == OBJ:
+        return eng.ctx.app("as_dict", [OBJ], LIM, [x])
+    return None
+
+
+def opt_iter(eng, v, st):
+    if v.sort == OBJ:
+        return eng.ctx.app("as_list", [OBJ], Seq(STR), [v])
+    return None
+
+
+GL_contracts = {
+ "Job.get_option": dict(where=f"{SCHED}:Job.get_option", params={"self": REF, "key": STR, "default": OBJ, "as_type": OBJ}, returns=OBJ,
+    ensures=["implies(key == 'limits', result == limits_option(self))"]),
+ "Job.get_limits": dict(where=f"{SCHED}:Job.get_limits", params={"self": REF}, returns=LIM, classes={"self": "Job"},
+    locals={"job_limits": LIM, "limits": OBJ},
+    requires=["truthy(self.task)", "isinst_list(limits_option(self)) != isinst_dict(limits_option(self))"],
+    ensures=["implies(isinst_dict(limits_option(self)), forall(k, Str, result.get(k) == as_dict(limits_option(self)).get(k)))",
+             "implies(isinst_list(limits_option(self)), forall(k, Str, implies(k in as_list(limits_option(self)), result.get(k) == Some(1))))",
+             "implies(isinst_list(limits_option(self)), forall(k, Str, implies(not (k in as_list(limits_option(self))), result.get(k) == None)))"]),
+}
+GL_MODULE = Module(stable={"task": OBJ},
+                   ufuns={"limits_option": ([REF], OBJ), "as_dict": ([OBJ], LIM), "as_list": ([OBJ], Seq(STR)), "isinst_list": ([OBJ], BOOL), "isinst_dict": ([OBJ], BOOL), "truthy": ([OBJ], BOOL)},
+                   hooks={"as_map": opt_as_map, "iter": opt_iter}, contracts=GL_contracts)
+MODULES = [(MODULE, VERIFY), (GL_MODULE, ["Job.get_limits"])]
 
 
 from pvc import frame_scan
